@@ -74,8 +74,10 @@ func TestLive(t *testing.T) {
 	// one cluster scenario of each kind
 	run := harness.New("C14", "fault_enumeration", "live test")
 	outOfOrderStop(run, d, "cluster-ooo-live", 0)
+	outOfOrderStop(run, d, "cluster-ooo-live-gap", 3)
 	inProcessRestart(run, d, "cluster-inproc-live", 0)
-	if run.Counter("cluster_out_of_order_stops") != 1 || run.Counter("cluster_in_process_restarts") != 1 {
-		t.Fatalf("cluster scenarios did not run to their stop/failure: %d %d", run.Counter("cluster_out_of_order_stops"), run.Counter("cluster_in_process_restarts"))
+	syncResync(run, d, "cluster-syncresync-live", 0)
+	if run.Counter("cluster_out_of_order_stops") != 2 || run.Counter("cluster_gap_closed_last") != 1 || run.Counter("cluster_in_process_restarts") != 1 || run.Counter("cluster_sync_resyncs") != 1 {
+		t.Fatalf("cluster scenarios did not run to their stop/failure: %d %d %d %d", run.Counter("cluster_out_of_order_stops"), run.Counter("cluster_gap_closed_last"), run.Counter("cluster_in_process_restarts"), run.Counter("cluster_sync_resyncs"))
 	}
 }
